@@ -1108,7 +1108,27 @@ where
         w.move_to(fwd[t]);
         let mut post = vec![];
         while let Some(x) = w.next(g) { post.push(inv[&x]); if post.len() > lim { break; } }
-        json!({"s": s, "t": t, "pre": pre, "post": post})
+        // reset in the MIDDLE of a traversal clears the whole visit state: map AND pending stack, so the walker is
+        // empty afterwards; seeding the public stack then starts a traversal that knows nothing of the old one
+        let mut w2 = Dfs::new(g, fwd[s]);
+        for _ in 0..k { if w2.next(g).is_none() { break; } }
+        w2.reset(g);
+        let pending = w2.stack.len();
+        let mut rrest = vec![];
+        while let Some(x) = w2.next(g) { rrest.push(inv[&x]); if rrest.len() > lim { break; } }
+        let mut w3 = Dfs::new(g, fwd[s]);
+        for _ in 0..k { if w3.next(g).is_none() { break; } }
+        w3.reset(g);
+        w3.stack.push(fwd[t]);
+        let mut rseed = vec![];
+        while let Some(x) = w3.next(g) { rseed.push(inv[&x]); if rseed.len() > lim { break; } }
+        let mut w4 = DfsPostOrder::new(g, fwd[s]);
+        for _ in 0..k { if w4.next(g).is_none() { break; } }
+        w4.reset(g);
+        w4.stack.push(fwd[t]);
+        let mut pseed = vec![];
+        while let Some(x) = w4.next(g) { pseed.push(inv[&x]); if pseed.len() > lim { break; } }
+        json!({"s": s, "t": t, "pre": pre, "post": post, "pending": pending, "rrest": rrest, "rseed": rseed, "pseed": pseed})
     }).collect::<Vec<_>>())));
     // Bfs has no reset/move_to: a fresh walker per start
     f.insert(format!("bfs{}", tag), run(|| json!((0..n).map(|s| {
